@@ -66,10 +66,10 @@ Proof.
     rewrite E. exists y1. split; [|exact HR']. f_equal. f_equal. now apply observe_R.
   - injection H as <- <- <-. exists x1. split; [|exact HR]. f_equal. f_equal.
     apply observe_R; [exact HR | exact Hst].
-  - pose proof (sim_ms (fuel_for (set_log s []) 0) KExecRunning _ _ (set_log s [])
+  - pose proof (sim_ms (fuel_for (set_log s []) 0) KFrame _ _ (set_log s [])
                  (settime_R (clock (set_log s [])) x1 x2 HR)) as Hq.
     cbn [p_settime model_prims spec_prims] in *.
-    destruct (go spec_prims (fuel_for (set_log s []) 0) KExecRunning (a_settime (clock (set_log s [])) x2) (set_log s []))
+    destruct (go spec_prims (fuel_for (set_log s []) 0) KFrame (a_settime (clock (set_log s [])) x2) (set_log s []))
       as [[y2 t2]|]; [|discriminate].
     injection H as <- <- <-. cbn [rel] in Hq. cbn [observe stale p_flag spec_prims] in Hst.
     destruct Hq as [Hf|[y1 [E HR']]]; [cbn [p_flag spec_prims] in Hf; congruence|].
